@@ -95,7 +95,9 @@ def gen_config(rng, big=False):
         "r0s": [round(rng.logu(0.05, 2.0), 5) for _ in range(n_layers)],
         "L0s": [round(rng.logu(5.0, 100.0), 4) for _ in range(n_layers)],
         "arrays": rng.chance(0.5),
-        "mask_dtype": rng.choice(["int", "float"]),
+        "mask_dtype": rng.choice(["int", "float", "bool"]),
+        "readonly": rng.chance(0.2),          # the caller's arrays are write-protected
+        "np_scalars": rng.chance(0.3),        # n_wfs / n_layers / threads arrive as numpy integers
     }
 
 
@@ -181,13 +183,21 @@ def sample_view(plan):
 def make_object(sc, cfg, threads):
     import numpy
     masks = [numpy.array(m, dtype=cfg.get("mask_dtype", "int")) for m in cfg["masks"]]
-    if cfg.get("arrays"):
-        conv = lambda x: numpy.array(x, dtype=float)
-    else:
-        conv = lambda x: list(x)
+    ro = bool(cfg.get("readonly"))
+
+    def arr(x):
+        a = numpy.array(x, dtype=float)
+        if ro:
+            a.setflags(write=False)
+        return a
+    if ro:
+        for m in masks:
+            m.setflags(write=False)
+    conv = arr if cfg.get("arrays") else (lambda x: list(x))
+    ii = (lambda v: numpy.int64(v)) if cfg.get("np_scalars") else (lambda v: v)
     return sc.CovarianceMatrix(
-        cfg["n_wfs"], masks, cfg["tel"], conv(cfg["diams"]), conv(cfg["gs_alt"]), conv(cfg["gs_pos"]), conv(cfg["wl"]),
-        cfg["n_layers"], conv(cfg["alts"]), conv(cfg["r0s"]), conv(cfg["L0s"]), threads)
+        ii(cfg["n_wfs"]), masks, cfg["tel"], conv(cfg["diams"]), conv(cfg["gs_alt"]), conv(cfg["gs_pos"]), conv(cfg["wl"]),
+        ii(cfg["n_layers"]), conv(cfg["alts"]), conv(cfg["r0s"]), conv(cfg["L0s"]), ii(threads))
 
 
 def _mbytes(m):
@@ -282,7 +292,7 @@ def _run_steps(plan, sc, res, log, kern, objs_cfg, n_obj, refs, objs, last, buil
         # ---- build
         k_threads = int(st["threads"])
         ref = reference(o)
-        c.threads = k_threads
+        c.threads = numpy.int64(k_threads) if objs_cfg[o].get("np_scalars") and k_threads > 1 else k_threads
         hist[o].append(k_threads)
         res.count("op.build")
         res.count("op.build.mp" if k_threads > 1 else "op.build.sp")
